@@ -32,6 +32,10 @@ OP_SWEEP = _sweep("VTwo", {"factor": "t ** 2 // 1 + (u if t < u else -u)"}, {"t"
 OP_SWEEP["parameters"] = {"addend": 0.25}
 PROBE_SWEEP = _sweep("VTwoProbe", {"factor": "abs(t) % 3"}, {"t": {"values": [1.0, 2.0]}}, collection=None)
 PROBE_SWEEP["context_key"] = "res"
+# two from_context variables reading different keys, for every wrapped kind
+OP_SWEEP_CTX = _sweep("VTwo", {"factor": "t + u"}, {"u": {"from_context": "r"}, "t": {"from_context": "q"}}, mode="by_position", broadcast=True)
+PROBE_SWEEP_CTX = _sweep("VTwoProbe", {"factor": "t * u"}, {"u": {"from_context": "r"}, "t": {"from_context": "q"}, "s": {"from_context": "a"}}, collection=None)
+PROBE_SWEEP_CTX["context_key"] = "res"
 
 RUN_SPACES: List[dict] = [
     {"blocks": [{"mode": "by_position", "context": {"value": [1.0, 2.0], "a": [0.0, 0.0]}}]},
@@ -83,6 +87,7 @@ def base_configs(tier: str) -> List[dict]:
         out.append(cfg([sw] + tail[: 1 + i % 3]))
     out.append(cfg([n("VSrc", {"value": 2.0}), OP_SWEEP, n("VSum")]))
     out.append(cfg([n("VSrc", {"value": 2.0}), PROBE_SWEEP, n("VSink")]))
+    out.append(cfg([n("VSrc", {"value": 2.0}), OP_SWEEP_CTX, n("VSum"), PROBE_SWEEP_CTX]))
     # run spaces
     out.append(cfg([gen.SYMBOLS[s]["node"] for s in ("src_ctx", "failif", "probe_r")], RUN_SPACES[0]))
     out.append(cfg([gen.SYMBOLS[s]["node"] for s in ("src_ctx", "two")], RUN_SPACES[1]))
